@@ -23,6 +23,7 @@ OUTSIDE = "decimal rendering of doubles (numeric fields are compared after re-pa
 TASKS_PER_CHILD = 2
 LEVEL_TEXT = ("Symbolic identities for the record summary (z3), plus solver-driven enumeration of formatted records re-parsed by an independent parser (string code realises symbolic values). Partly applicable: see OUTSIDE.")
 REPORTS = [(), ("AFP", "ACP", "AOP"), ("GP",), ("INFO/AFP", "INFO/ACP", "INFO/AOP", "AOPSUM", "AFPRIOR", "SNVDP", "GP", "AFP")]
+EXACT_REPORTS = [(), ("GL",), ("GP", "GL", "AFP", "ACP", "AOP"), ("INFO/AFP", "INFO/ACP", "INFO/AOP", "AOPSUM", "AFPRIOR", "GL")]
 
 
 def configs(tier):
@@ -39,6 +40,17 @@ def configs(tier):
     for nA in (2, 3):
         for r in (0, 3):
             out.append(dict(group="call-line", nA=nA, report=r))
+    # call-exact (the real exact code on solver-chosen reads) and call-pedigree (trace chosen by the solver)
+    for nA in (2, 3):
+        for r in range(len(EXACT_REPORTS)):
+            out.append(dict(group="exact-line", nA=nA, report=r))
+        for r in (0, 3):
+            out.append(dict(group="ped-line", nA=nA, report=r))
+    # value formatting: every 3-decimal value of a range, rendered alone and inside arrays, must read back as itself
+    step = 400 if tier == "quick" else 200
+    for scale in (1, 1000):
+        for lo in range(-1200, 1201, step):
+            out.append(dict(group="vcfstr", lo=lo, hi=min(1200, lo + step - 1), scale=scale))
     return out
 
 
@@ -60,7 +72,7 @@ def run_config(c, col):
         else:
             E.cfg.concrete_floats = True
             try:
-                (_run_asm_line if c["group"] == "asm-line" else _run_call_line)(c, col)
+                {"asm-line": _run_asm_line, "call-line": _run_call_line, "exact-line": _run_exact_line, "ped-line": _run_ped_line, "vcfstr": _run_vcfstr}[c["group"]](c, col)
             finally:
                 E.cfg.concrete_floats = False
     col.functions |= set(prof.names())
@@ -255,7 +267,7 @@ def parse_line(line, infofields, formatfields, samples, ploidy, snv_offsets, ref
             if k in iv and iv[k] != v:
                 problems.append(("info-recount", "INFO %s=%s but the sample columns give %s" % (k, iv[k], v)))
         for k, fk in (("ACP", "ACP"), ("AOPSUM", "AOP")):
-            if k in iv and iv[k] != "." and fk in keys and all(cols[s][fk] != "." for s in samples):
+            if k in iv and "." not in iv[k].split(",") and fk in keys and all("." not in cols[s][fk].split(",") for s in samples):
                 tot = [sum(float(cols[s][fk].split(",")[a]) for s in samples) for a in range(n)]
                 got = [float(x) for x in iv[k].split(",")]
                 if any(abs(a_ - b_) > 2.5e-3 * len(samples) for a_, b_ in zip(got, tot)):
@@ -333,7 +345,7 @@ def _run_asm_line(c, col):
             data.sampledata[FORMAT.SNVDP][s] = rnp.array([7.0, 8.0])
         prog.call_sample_genotypes(data)
         prog.sumarise_vcf_record(data)
-        return data.format_vcf_record(), thr
+        return data.format_vcf_record(), thr, data
 
     first = True
     for pr in E.explore(body, stats=col.stats):
@@ -345,8 +357,8 @@ def _run_asm_line(c, col):
         if first:
             col.reachable(pr.ctx)
             first = False
-        line, thr = pr.value
-        problems = parse_line(line, infof, fmtf, samples, {s: len(gs[0]) for s, gs in zip(samples, scen)}, {1, 3}, "AAGA")
+        line, thr, data = pr.value
+        problems = parse_line(line, infof, fmtf, samples, {s: len(gs[0]) for s, gs in zip(samples, scen)}, {1, 3}, "AAGA") or readback_problems(line, data, samples)
         if problems:
             col.fail(site, problems[0][0], shape=dict(prog="assemble"), witness=dict(line=line, problems=[p[1] for p in problems][:4], model=E.model_dict(E.prove(pr.ctx, False).model), scenario=c["scenario"]), desc=problems[0][1])
         else:
@@ -368,6 +380,7 @@ class _PriorLocus:
     def __init__(self, haps, freqs, mask):
         self._h, self.frequencies, self.mask_reference_allele = haps, freqs, mask
         self.alts = tuple(["ACA", "AGA", "ATA"][: len(haps) - 1])
+        self.alleles = [("A", "C", "G", "T")[: len(haps)]]
 
     def encode_haplotypes(self):
         return self._h
@@ -424,7 +437,7 @@ def _run_call_line(c, col):
             data.sampledata[FORMAT.SNVDP][s] = rnp.array([7.0])
         prog.call_sample_genotypes(data)
         prog.sumarise_vcf_record(data)
-        return data.format_vcf_record()
+        return data.format_vcf_record(), data
 
     first = True
     for pr in E.explore(body, stats=col.stats):
@@ -436,13 +449,265 @@ def _run_call_line(c, col):
         if first:
             col.reachable(pr.ctx)
             first = False
-        line = pr.value
-        problems = parse_line(line, infof, fmtf, samples, {s: P for s in samples}, {1}, "AAA")
+        line, data = pr.value
+        problems = parse_line(line, infof, fmtf, samples, {s: P for s in samples}, {1}, "AAA") or readback_problems(line, data, samples)
         if problems:
             col.fail(site, problems[0][0], shape=dict(prog="call"), witness=dict(line=line, problems=[p[1] for p in problems][:4], model=E.model_dict(E.prove(pr.ctx, False).model)), desc=problems[0][1])
         else:
             col.ok("call record re-parsed: declared keys, cardinalities, GT form, REF/ALT shape, recounted summaries (--report %s)" % (list(REPORTS[c["report"]]),))
 
+
+
+# ------------------------------------------------------------------ numeric read-back ("reads back as the internal value rounded to 3 decimals")
+
+
+def _num(tok):
+    return float("nan") if tok == "." else float(tok)
+
+
+def _same(txt, val, tol=5.1e-4):
+    """does the text read back as val rounded to three decimals?  (5e-4 = the rounding itself; 1e-5 slack for float32 inputs)"""
+    got = _num(txt)
+    if val is None or (isinstance(val, float) and math.isnan(val)):
+        return math.isnan(got)
+    if math.isnan(got):
+        return False
+    if math.isinf(got) or math.isinf(float(val)):
+        return got == float(val)
+    return abs(got - float(val)) <= tol + 1e-9 * abs(float(val)) and abs(got - round(float(val), 3)) <= 1e-6 + 1e-9 * abs(float(val))
+
+
+def readback_problems(line, data, samples):
+    """compare every numeric INFO / FORMAT value of the formatted line with the internal value it was rendered from"""
+    problems = []
+    f = line.rstrip("\n").split("\t")
+    info = dict(item.partition("=")[::2] for item in f[7].split(";"))
+    for fld in data.infofields:
+        if fld.id not in info or isinstance(data.infodata.get(fld), bool):
+            continue
+        val = data.infodata.get(fld)
+        if val is None or isinstance(val, str):
+            continue
+        vals = [float(x) for x in rnp.atleast_1d(rnp.asarray(val, dtype=float))]
+        toks = info[fld.id].split(",")
+        if len(toks) != len(vals) and not (len(vals) == 0 and toks == ["."]):
+            problems.append(("readback", "INFO %s has %d values in the text, %d internally" % (fld.id, len(toks), len(vals))))
+        elif any(not _same(t, v) for t, v in zip(toks, vals)):
+            problems.append(("readback", "INFO %s=%s does not read back as the internal values %s rounded to 3 decimals" % (fld.id, info[fld.id], [round(v, 4) for v in vals])))
+    keys = f[8].split(":")
+    for s, colv in zip(samples, f[9:]):
+        toks_by_key = dict(zip(keys, colv.split(":")))
+        for fld in data.formatfields:
+            if fld.id == "GT" or fld.id not in toks_by_key:
+                continue
+            val = data.sampledata[fld].get(s)
+            if val is None or isinstance(val, str):
+                continue
+            vals = [float(x) for x in rnp.atleast_1d(rnp.asarray(val, dtype=float))]
+            toks = toks_by_key[fld.id].split(",")
+            if len(toks) != len(vals):
+                problems.append(("readback", "FORMAT %s of %s has %d values in the text, %d internally" % (fld.id, s, len(toks), len(vals))))
+            elif any(not _same(t, v) for t, v in zip(toks, vals)):
+                problems.append(("readback", "FORMAT %s of %s = %s does not read back as the internal values %s rounded to 3 decimals" % (fld.id, s, toks_by_key[fld.id], [round(v, 4) for v in vals])))
+    return problems
+
+
+# ------------------------------------------------------------------ vcfstr on every 3-decimal value of a range
+
+
+def _run_vcfstr(c, col):
+    su = E.load("mchap.io.vcf.util")
+    site = "mchap.io.vcf.util.vcfstr"
+    scale = c["scale"]
+
+    def body(ctx):
+        k = E.enum_int(ctx, "k", c["lo"], c["hi"])
+        v = k / 1000.0 * scale + (0.0004 if k % 7 == 0 else 0.0)  # some values carry a 4th decimal that must round away
+        outs = []
+        for arr in ([v], [2.0, v, 30.0], [v, float("nan"), v], [v, -0.0469, 0.5]):
+            outs.append((arr, su.vcfstr(rnp.array(arr))))
+        outs.append(([v], su.vcfstr(float(v))))
+        outs.append(([v, 1.0], su.vcfstr([float(v), 1.0])))
+        outs.append(([v], su.vcfstr(rnp.array([v], dtype=rnp.float32))))
+        return k, outs
+
+    first = True
+    for pr in E.explore(body, stats=col.stats):
+        if pr.exc is not None:
+            col.fail(site, "exception", witness=dict(exc=repr(pr.exc), model=E.model_dict(E.prove(pr.ctx, False).model)), desc="raised %r" % (pr.exc,))
+            continue
+        col.path()
+        if first:
+            col.reachable(pr.ctx)
+            first = False
+        k, outs = pr.value
+        bad = None
+        for arr, txt in outs:
+            toks = txt.split(",")
+            if len(toks) != len(arr) or any(not _same(t, x, tol=5.1e-4 * max(1.0, scale / 100.0)) for t, x in zip(toks, arr)):
+                bad = (arr, txt)
+                break
+        if bad:
+            col.fail(site, "readback", shape=dict(prog="vcfstr"), witness=dict(values=[repr(x) for x in bad[0]], text=bad[1], model=dict(k=k)),
+                     desc="vcfstr(%s) = %r does not read back as the values rounded to 3 decimals" % (bad[0], bad[1]))
+        else:
+            col.ok("vcfstr renders k/1000*%d (alone, inside arrays, next to nan, as float / list / float32) so that it reads back as the value rounded to 3 decimals" % scale)
+
+
+# ------------------------------------------------------------------ call-exact lines (the real exact code on concrete reads)
+
+# (read, allele) probabilities are strictly positive: the CLI refuses a zero error rate (same precondition as C01/C03)
+READ_GRID = [[0.9, 0.09, 0.01], [0.1, 0.89, 0.01], [0.05, 0.05, 0.9], [0.999, 0.0005, 0.0005]]
+
+
+def _run_exact_line(c, col):
+    E.use_summaries(False)  # concrete numbers: the real add_log_prob / normalise_log_probs run as they are
+    E.reset_modules()
+    cx = E.load("mchap.application.call_exact")
+    bc, FORMAT, INFO, COLUMN = _mods()
+    args = E.load("mchap.application.arguments")
+    cx.minimum_error_correction = lambda calls, haps: rnp.zeros(1)
+    site = "mchap.application.baseclass.LocusAssemblyData.format_vcf_record"
+    nA = c["nA"]
+    haps = rnp.arange(nA).reshape(nA, 1).astype(rnp.int8)
+    infof, fmtf = args.parse_report_fields(list(EXACT_REPORTS[c["report"]]))
+    samples = ["s0", "s1"]
+    ploidy = {"s0": 2, "s1": 3}
+
+    def body(ctx):
+        zero = [bool(int(E.SymInt(E.fresh_int(ctx, "z%d" % i, 0, 1)))) for i in range(nA)]
+        mask = bool(int(E.SymInt(E.fresh_int(ctx, "mask", 0, 1))))
+        if mask:
+            zero[0] = True
+        live = [i for i in range(nA) if not zero[i]]
+        fs = rnp.array([0.0 if i not in live else 1.0 / max(1, len(live)) for i in range(nA)])
+        if not live:
+            fs[:] = rnp.nan
+        prog = cx.program.__new__(cx.program)
+        prog.info_fields, prog.format_fields = list(infof), list(fmtf)
+        for k, v in dict(samples=samples, sample_ploidy=dict(ploidy), sample_inbreeding={"s0": 0.0, "s1": 0.25}, precision=3).items():
+            setattr(prog, k, v)
+        data = prog._locus_data(_PriorLocus(haps, fs, mask), {s: [] for s in samples})
+        for s in samples:
+            r0 = int(E.SymInt(E.fresh_int(ctx, "r0_%s" % s, 0, len(READ_GRID) - 1)))
+            r1 = int(E.SymInt(E.fresh_int(ctx, "r1_%s" % s, r0, len(READ_GRID) - 1))) if s == "s0" else (r0 + 1) % len(READ_GRID)
+            data.read_calls[s] = rnp.zeros((2, 1), dtype=int)
+            data.read_dists[s] = rnp.array([[READ_GRID[r0][:nA]], [READ_GRID[r1][:nA]]], dtype=float)
+            data.read_counts[s] = rnp.array([1, 2])
+            data.sampledata[FORMAT.DP][s] = 7.0
+            data.sampledata[FORMAT.RCOUNT][s] = 9
+            data.sampledata[FORMAT.RCALLS][s] = 12
+            data.sampledata[FORMAT.SNVDP][s] = rnp.array([7.0])
+        prog.call_sample_genotypes(data)
+        prog.sumarise_vcf_record(data)
+        return data.format_vcf_record(), data
+
+    first = True
+    for pr in E.explore(body, stats=col.stats):
+        if pr.exc is not None:
+            e = pr.exc.__cause__ or pr.exc
+            col.fail(site, "exception", shape=dict(prog="call-exact"), witness=dict(exc=repr(e), model=E.model_dict(E.prove(pr.ctx, False).model)), desc="raised %r" % (e,))
+            continue
+        col.path()
+        if first:
+            col.reachable(pr.ctx)
+            first = False
+        line, data = pr.value
+        problems = parse_line(line, infof, fmtf, samples, ploidy, {1}, "AAA") or readback_problems(line, data, samples)
+        if problems:
+            col.fail(site, problems[0][0], shape=dict(prog="call-exact"), witness=dict(line=line, problems=[p[1] for p in problems][:4], model=E.model_dict(E.prove(pr.ctx, False).model)), desc=problems[0][1])
+        else:
+            col.ok("call-exact record re-parsed: declared keys, cardinalities (R/G per sample ploidy), GT form, recounted summaries, numeric read-back (--report %s)" % (list(EXACT_REPORTS[c["report"]]),))
+
+
+# ------------------------------------------------------------------ call-pedigree lines
+
+
+def _run_ped_line(c, col):
+    cp = E.load("mchap.application.call_pedigree")
+    bc, FORMAT, INFO, COLUMN = _mods()
+    cc = E.load("mchap.calling.classes")
+    args = E.load("mchap.application.arguments")
+    cp.minimum_error_correction = lambda calls, haps: rnp.zeros(1)
+    site = "mchap.application.baseclass.LocusAssemblyData.format_vcf_record"
+    nA = c["nA"]
+    haps = rnp.arange(nA).reshape(nA, 1).astype(rnp.int8)
+    infof, fmtf = args.parse_report_fields(list(REPORTS[c["report"]]) + (["GL"] if c["report"] else []))
+    fmtf = fmtf + list(FORMAT.PEDIGREE_FIELDS)
+    samples = ["s0", "s1", "s2"]
+    ploidy = {"s0": 2, "s1": 2, "s2": 2}
+
+    def body(ctx):
+        zero = [bool(int(E.SymInt(E.fresh_int(ctx, "z%d" % i, 0, 1)))) for i in range(nA)]
+        mask = bool(int(E.SymInt(E.fresh_int(ctx, "mask", 0, 1))))
+        live = [i for i in range(nA) if not (zero[i] or (i == 0 and mask))]
+        fs = rnp.array([0.0 if i not in live else 1.0 / max(1, len(live)) for i in range(nA)])
+        if not live:
+            fs[:] = rnp.nan
+        captured = {}
+
+        class FakeTrace:
+            def __init__(self, n):
+                self.n = n
+
+            def burn(self, k):
+                return self
+
+            def incongruence(self, **kw):
+                return rnp.array([0.0, 0.125, 1.0])
+
+            def individual(self, i):
+                n = self.n
+                g = rnp.zeros((1, 2, 2), dtype=rnp.int8)
+                a = int(E.SymInt(E.fresh_int(ctx, "g%d_0" % i, 0, n - 1)))
+                b = int(E.SymInt(E.fresh_int(ctx, "g%d_1" % i, a, n - 1))) if i == 0 else a
+                g[0, 0] = (a, b)
+                g[0, 1] = (a, a)
+                return cc.GenotypeAllelesMultiTrace(g, rnp.full((1, 2), rnp.nan), n)
+
+        class FakeMCMC:
+            def __init__(self, **kw):
+                captured.update(kw)
+
+            def fit(self, sample_reads, sample_read_counts):
+                return FakeTrace(len(captured["haplotypes"]))
+
+        cp.PedigreeCallingMCMC = FakeMCMC
+        prog = cp.program.__new__(cp.program)
+        prog.info_fields, prog.format_fields = list(infof), list(fmtf)
+        for k, v in dict(mcmc_steps=2, mcmc_chains=1, random_seed=1, mcmc_burn=0, mcmc_incongruence_threshold=0.6, samples=samples, sample_ploidy=dict(ploidy),
+                         sample_inbreeding={s: 0.0 for s in samples}, precision=3, sample_parents={"s0": (None, None), "s1": (None, None), "s2": ("s0", "s1")},
+                         gamete_ploidy={s: (1, 1) for s in samples}, gamete_ibd={s: (0.0, 0.0) for s in samples}, gamete_error={s: (0.01, 0.01) for s in samples}).items():
+            setattr(prog, k, v)
+        data = prog._locus_data(_PriorLocus(haps, fs, mask), {s: [] for s in samples})
+        for s in samples:
+            data.read_calls[s] = rnp.zeros((1, 1), dtype=int)
+            data.read_dists[s] = rnp.array([[READ_GRID[0][:nA]]], dtype=float)
+            data.read_counts[s] = rnp.array([1])
+            data.sampledata[FORMAT.DP][s] = 7.0
+            data.sampledata[FORMAT.RCOUNT][s] = 9
+            data.sampledata[FORMAT.RCALLS][s] = 12
+            data.sampledata[FORMAT.SNVDP][s] = rnp.array([7.0])
+        prog.call_sample_genotypes(data)
+        prog.sumarise_vcf_record(data)
+        return data.format_vcf_record(), data
+
+    first = True
+    for pr in E.explore(body, stats=col.stats):
+        if pr.exc is not None:
+            e = pr.exc.__cause__ or pr.exc
+            col.fail(site, "exception", shape=dict(prog="call-pedigree"), witness=dict(exc=repr(e), model=E.model_dict(E.prove(pr.ctx, False).model)), desc="raised %r" % (e,))
+            continue
+        col.path()
+        if first:
+            col.reachable(pr.ctx)
+            first = False
+        line, data = pr.value
+        problems = parse_line(line, infof, fmtf, samples, ploidy, {1}, "AAA") or readback_problems(line, data, samples)
+        if problems:
+            col.fail(site, problems[0][0], shape=dict(prog="call-pedigree"), witness=dict(line=line, problems=[p[1] for p in problems][:4], model=E.model_dict(E.prove(pr.ctx, False).model)), desc=problems[0][1])
+        else:
+            col.ok("call-pedigree record re-parsed: declared keys (incl. PEDERR), cardinalities, GT form, recounted summaries, numeric read-back (--report %s)" % (list(REPORTS[c["report"]]),))
 
 # ------------------------------------------------------------------ replay: the same drivers on the real modules
 
@@ -458,7 +723,8 @@ def replay(v):
     warnings.simplefilter("ignore")
     if c["group"] == "summary":
         return _replay_summary(c, m)
-    real = {"mchap.application.assemble": None, "mchap.application.call": None, "mchap.application.baseclass": None, "mchap.io.vcf.formatfields": None,
+    real = {"mchap.application.assemble": None, "mchap.application.call": None, "mchap.application.call_exact": None, "mchap.application.call_pedigree": None,
+            "mchap.io.vcf.util": None, "mchap.application.baseclass": None, "mchap.io.vcf.formatfields": None,
             "mchap.io.vcf.infofields": None, "mchap.io.vcf.columns": None, "mchap.assemble.classes": None, "mchap.calling.classes": None,
             "mchap.application.arguments": None, "mchap.io.loci": None}
     for name in real:
@@ -466,7 +732,9 @@ def replay(v):
     saved_load = E.load
     saved_attrs = []
     for modname, attr in (("mchap.application.assemble", "DenovoMCMC"), ("mchap.application.assemble", "minimum_error_correction"),
-                          ("mchap.application.call", "CallingMCMC"), ("mchap.application.call", "minimum_error_correction")):
+                          ("mchap.application.call", "CallingMCMC"), ("mchap.application.call", "minimum_error_correction"),
+                          ("mchap.application.call_exact", "minimum_error_correction"), ("mchap.application.call_pedigree", "minimum_error_correction"),
+                          ("mchap.application.call_pedigree", "PedigreeCallingMCMC")):
         saved_attrs.append((real[modname], attr, getattr(real[modname], attr)))
 
     class _Pinned:
@@ -481,7 +749,7 @@ def replay(v):
     res = {}
     try:
         col = _OneShot()
-        (_run_asm_line if c["group"] == "asm-line" else _run_call_line)(c, col)
+        {"asm-line": _run_asm_line, "call-line": _run_call_line, "exact-line": _run_exact_line, "ped-line": _run_ped_line, "vcfstr": _run_vcfstr}[c["group"]](c, col)
         res = col
     finally:
         E.load = saved_load
@@ -490,7 +758,7 @@ def replay(v):
             setattr(mod, attr, val)
     if res.fails:
         k, desc, wit = res.fails[0]
-        return True, "real modules: %s :: %s" % (desc, (wit or {}).get("line", (wit or {}).get("exc", ""))[:300])
+        return True, "real modules: %s :: %s" % (desc, (wit or {}).get("line", (wit or {}).get("exc", (wit or {}).get("text", "")))[:300])
     return False, "real modules produce a well-formed line for this record"
 
 
